@@ -605,8 +605,12 @@ pub fn input_set(m: &Model, ty: &str, big: bool, thorough: bool, max_values: usi
 pub fn input_set_b(m: &Model, ty: &str, big: bool, thorough: bool, max_values: usize, max_array_len: usize) -> Vec<Vec<u8>> {
     let mut seen: std::collections::HashSet<Vec<u8>> = std::collections::HashSet::new();
     let mut out: Vec<Vec<u8>> = vec![];
+    // thorough: 200 values whose encodings reach 2 KB have 25 000 single-fault mutants each;
+    // the collected set stops at 20 000 strings (in enumeration order: alphabet strings, then
+    // the values one after the other), the in-process Rust engine streams the full enumeration
+    let cap = if thorough { 20_000 } else { usize::MAX };
     let mut push = |b: &[u8]| {
-        if seen.insert(b.to_vec()) {
+        if out.len() < cap && seen.insert(b.to_vec()) {
             out.push(b.to_vec());
         }
     };
